@@ -1285,6 +1285,9 @@ class TLSConnection(TLSRecordLayer):
                                                "an (EC)DH group")
         if sr_kex:
             sr_kex = sr_kex.server_share
+            if sr_kex is None:
+                raise TLSDecodeError("Empty key_share extension in "
+                                     "Server Hello")
             self.ecdhCurve = sr_kex.group
             cl_key_share_ex = clientHello.getExtension(ExtensionType.key_share)
             cl_kex = next((i for i in cl_key_share_ex.client_shares
@@ -3493,6 +3496,11 @@ class TLSConnection(TLSRecordLayer):
         if real_version >= (3, 3):
             ext = clientHello.getExtension(ExtensionType.supported_versions)
             if ext:
+                if not ext.versions:
+                    for result in self._sendError(
+                            AlertDescription.decode_error,
+                            "Empty supported_versions extension"):
+                        yield result
                 for v in ext.versions:
                     if v in KNOWN_VERSIONS and v > real_version:
                         real_version = v
@@ -3525,6 +3533,14 @@ class TLSConnection(TLSRecordLayer):
             for result in self._sendError(
                     AlertDescription.decode_error,
                     "Malformed signature_algorithms extension"):
+                yield result
+
+        # the list of client certificate types can't be empty
+        cert_type_ext = clientHello.getExtension(ExtensionType.cert_type)
+        if cert_type_ext and not cert_type_ext.certTypes:
+            for result in self._sendError(
+                    AlertDescription.decode_error,
+                    "Empty cert_type extension"):
                 yield result
 
         # Sanity check the ALPN extension
@@ -4251,6 +4267,12 @@ class TLSConnection(TLSRecordLayer):
 
                 # here we're assuming that the HRR was sent because of
                 # missing key share, that may not always be the case
+                if ext.client_shares is None:
+                    for result in self._sendError(AlertDescription
+                                                  .decode_error,
+                                                  "Empty key_share extension "
+                                                  "in second Client Hello"):
+                        yield result
                 if len(ext.client_shares) != 1:
                     for result in self._sendError(AlertDescription
                                                   .illegal_parameter,
